@@ -4,6 +4,7 @@ mod dft;
 mod hal;
 mod ks;
 mod mul;
+mod rand;
 mod tmpbytes;
 mod util;
 mod wire;
@@ -147,6 +148,21 @@ fn main() {
             }
             out.flush().unwrap();
             println!("ks: {} events", cases.len());
+        }
+        // rand <descriptors.ndjson> <events.ndjson>
+        "rand" => {
+            let cases = read_ndjson(&args[2]);
+            let mut out = BufWriter::new(std::fs::File::create(&args[3]).unwrap());
+            let mut mods = rand::RMods::new();
+            let mut nev = 0usize;
+            for c in cases.iter() {
+                rand::run_rand(&mut mods, c, &mut |ev| {
+                    writeln!(out, "{}", serde_json::to_string(&ev).unwrap()).unwrap();
+                    nev += 1;
+                });
+            }
+            out.flush().unwrap();
+            println!("rand: {} descriptors {} events", cases.len(), nev);
         }
         // mul <descriptors.ndjson> <events.ndjson>
         "mul" => {
